@@ -225,6 +225,7 @@ func regsimBatch(job *Job, n int, acc *statAcc, res *Result) {
 	}
 	r := rand.New(rand.NewPCG(job.Seed, 0x5e95+lane))
 	for i := 0; i < n; i++ {
+		progress(job, "regsim %d", i)
 		tree := genRegTree(r)
 		// collect nodes
 		var nodes []*RegNode
